@@ -828,10 +828,23 @@ def rust_f64_display(x):
     return r
 
 
-@model(r'^<(i64|u64|f64|usize|i32|u32) as ToString>::to_string$')
+@model(r'^<(i64|u64|f64|f32|usize|i32|u32|i8|i16|u8|u16|isize) as ToString>::to_string$')
 def m_num_to_string(ex, callee, args):
     kind = callee[1:callee.index(' as ')]
-    return num_to_string(ex, kind, deref_all(args[0]))
+    v = deref_all(args[0])
+    if kind not in ('i64', 'u64', 'f64'):
+        # narrower types: nothing but "a function of the value" is claimed about the text
+        if isinstance(v, BV) and isinstance(v.v, int):
+            return StrV(str(v.v).encode())
+        t = v.v
+        key = ('num_str', kind, t.get_id() if not isinstance(t, (int, float)) else t)
+        s = ex.uni.memo.get(key)
+        if s is None:
+            s = S.fresh('str(%s)' % kind, 8, ex.uni.axioms, ascii_only=True, min_len=1)
+            ex.uni.memo[key] = s
+            ex.uni.alive.append(t)
+        return StrV(s)
+    return num_to_string(ex, kind, v)
 
 
 @model(r'^f64::<impl f64>::round$|^std::f64::<impl f64>::round$')
